@@ -19,7 +19,7 @@ import ast
 
 from ..cfg import CFG
 from ..core import AnalysisError, call_name, contains_yield, provenance, short, walk_no_nested
-from ..util import calls_named, has_call, norm
+from ..util import calls_named, has_call, innermost_stmt, norm
 
 BK = "molli.storage.backends"
 UKV = "molli.storage.ukvfile"
@@ -37,7 +37,7 @@ ASSUMPTIONS = [
     "fasteners.InterProcessReaderWriterLock provides reader/writer exclusion between processes",
     "statements without calls and without yield do not raise; begin_* failing after acquire is outside the property's list",
 ]
-FLOORS = {"C04.R1": 4, "C04.R2": 2, "C04.R3": 4, "C04.R4": 3, "C04.R5": 2}
+FLOORS = {"C04.R7": 1, "C04.R1": 4, "C04.R2": 2, "C04.R3": 4, "C04.R4": 3, "C04.R5": 2}
 
 SESSIONS = {"reading": ("read", "begin_read", "end_read"), "writing": ("write", "begin_write", "end_write")}
 
@@ -76,6 +76,7 @@ def run(chk):
     chk.call(r3_index_refresh, chk)
     chk.call(r4_lock_identity, chk, base)
     chk.call(r5_writes_under_lock, chk, base, classes)
+    chk.call(r7_creation, chk, classes)
     # R6: "a reader sees only complete records" and "no record of a completed session is lost" also for the session that ended
     # with an exception in the backend write: what the next session's index refresh (map_blocks, anchored here as well) admits,
     # where it lets the next append start, that the torn tail is cut off before that append, and that a put that failed
@@ -263,6 +264,81 @@ def r4_lock_identity(chk, base):
     chk.decide(ok, "C04.R4", f"{rw.key}:keyed-on-resolved-path", rw.where(),
                "lock file name is a digest of Path(path).resolve()",
                f"the lock file name does not derive from the resolved path (provenance {sorted(p)[:8]})")
+
+
+def r7_creation(chk, classes):
+    """Creating the library file is a write like any other: several processes construct their handle on a library that does
+    not exist yet at about the same time.  In every backend constructor (a) a UKVFile opened in a creating mode ("x" / "w")
+    sits inside `with self._lock.write_lock()`, (b) the test that decides whether to create (`is_file()` / `exists()`) is
+    evaluated inside that same block - a check made before the lock is taken is stale when the lock is granted, and the
+    process then re-initialises a file that another process has meanwhile created and filled -, and (c) the truncating mode
+    "w" is reached only when the caller asked for `overwrite`.  The mode may be a constant at the call or a local decided
+    by earlier tests (it is spelled out as a conditional expression and every creating outcome is judged)."""
+    from ..canon import Env, conjuncts, ifexp_assignments, negate, path_conditions
+
+    def exists_test(e):
+        return any(isinstance(x, ast.Call) and isinstance(x.func, ast.Attribute) and x.func.attr in ("is_file", "exists") for x in ast.walk(e))
+
+    def leaves(e, conds):
+        if isinstance(e, ast.IfExp):
+            return leaves(e.body, conds + [e.test]) + leaves(e.orelse, conds + [negate(e.test)])
+        if isinstance(e, ast.Constant):
+            return [(conds, e.value)]
+        raise AnalysisError(f"UKVFile(mode={short(e, 30)}) - the creating mode is not decided by constants")
+
+    n = 0
+    for ci in classes:
+        init0 = chk.prog.method(ci, "__init__")
+        if init0 is None or init0.cls is not ci:
+            continue
+        init = ifexp_assignments(init0)
+        env = Env(init.node)
+        calls = [c for c in ast.walk(init.node) if isinstance(c, ast.Call) and (call_name(c) or "").split(".")[-1] == "UKVFile"]
+        if not calls:
+            continue
+        chk.analysed(init0)
+        locks = [w for w in ast.walk(init.node) if isinstance(w, ast.With) and any(norm(it.context_expr).endswith("_lock.write_lock()") for it in w.items)]
+        for c in calls:
+            mode = next((k.value for k in c.keywords if k.arg == "mode"), c.args[1] if len(c.args) > 1 else None)
+            if mode is None:
+                continue  # default mode "r"
+            stmt = innermost_stmt(init.node, c)
+            inside = [w for w in locks if any(x is c for x in ast.walk(w))]
+            pcs = path_conditions(init.node, stmt)
+            # statements that evaluate an existence test on which this creation depends: enclosing ifs and the assignments of the
+            # locals the mode is spelled out from
+            sites = [g for g in ast.walk(init.node) if isinstance(g, ast.If) and exists_test(g.test) and any(x is c for x in ast.walk(g))]
+            dep_names = set()
+            todo = [mode] + list(pcs)   # the mode itself and every test on the way to the creation
+            while todo:
+                e = todo.pop()
+                for nm in ast.walk(e):
+                    if isinstance(nm, ast.Name) and nm.id not in dep_names:
+                        dep_names.add(nm.id)
+                        v = env.single(nm.id)
+                        if v is not None:
+                            todo.append(v)
+            sites += [a for a in ast.walk(init.node) if isinstance(a, ast.Assign) and any(isinstance(t, ast.Name) and t.id in dep_names for t in a.targets) and exists_test(a.value)]
+            for conds, mv in leaves(env.expand(mode, at=stmt, depth=6), []):
+                if mv not in ("w", "x"):
+                    continue
+                n += 1
+                key = f"{init0.key}:creation:{mv}"
+                allc = [x for t in list(pcs) + conds for x in conjuncts(t)]
+                asked = any(isinstance(t, ast.Name) and t.id == "overwrite" for t in allc)
+                stale = [g for g in sites if inside and not any(x is g for x in ast.walk(inside[0]))]
+                problems = []
+                if not inside:
+                    problems.append("the file is created outside `with self._lock.write_lock()`")
+                if stale:
+                    t0 = stale[0].test if isinstance(stale[0], ast.If) else stale[0].value
+                    problems.append(f"whether to create is decided by `{short(t0, 50)}` before the write lock is taken: by the time the lock is granted another process may "
+                                    "have created and filled the file, and this one initialises it again (records of completed sessions are lost)")
+                if mv == "w" and not asked:
+                    problems.append("the truncating mode \"w\" is reached without the caller having asked for overwrite: an existing library is emptied")
+                chk.decide(not problems, "C04.R7", key, init0.where(c), f"UKVFile(mode={mv!r}) under the write lock, existence tested inside it" + (", only on overwrite" if mv == "w" else ""),
+                           "; ".join(problems))
+    chk.require(n >= 1, "no backend constructor creates its file - unknown idiom")
 
 
 def r5_writes_under_lock(chk, base, classes):
